@@ -51,7 +51,7 @@ Definition is_bnil (b:block) : bool := match b with BNil => true | _ => false en
 
 (* ================================================================== A. break / continue / fallthrough *)
 
-(* ---- rule: break/continue inside a loop of the same function; fallthrough is the very last statement
+(* ---- rule: break/continue inside a loop of the same function and of the same defer block; fallthrough is the very last statement
         of a case block that is followed by another case block or by the else block *)
 Fixpoint rflow_stmt (inloop:bool) (s:stmt) {struct s} : bool :=
   match s with
@@ -62,7 +62,7 @@ Fixpoint rflow_stmt (inloop:bool) (s:stmt) {struct s} : bool :=
   | If t e => rflow_block inloop false t && rflow_block inloop false e
   | While b | Repeat b | For b => rflow_block true false b
   | Switch cs els d => rflow_cases inloop els cs && rflow_block inloop false d
-  | Defer b => rflow_block inloop false b
+  | Defer b => rflow_block false false b       (* break/continue may not leave a defer block *)
   | _ => true
   end
 with rflow_block (inloop ftok:bool) (b:block) {struct b} : bool :=
@@ -82,12 +82,13 @@ with rflow_cases (inloop els:bool) (cs:cases) {struct cs} : bool :=
   end.
 
 (* ---- analyzer: scope chain *)
-Record fscope := mkf { fl : bool; ff : bool; fcase : option (nat * nat * bool) }.
+Record fscope := mkf { fl : bool; ff : bool; fdb : bool (* is_deferblock *); fcase : option (nat * nat * bool) }.
 (* fcase = Some (switchcase_index as a case number, number of cases, has else) on a case block scope *)
 
-Definition plain_scope := mkf false false None.
-Definition loop_scope := mkf true false None.
-Definition func_scope := mkf false true None.
+Definition plain_scope := mkf false false false None.
+Definition loop_scope := mkf true false false None.
+Definition func_scope := mkf false true false None.
+Definition defer_scope := mkf false false true None.
 
 (* Scope:get_up_scope_of_any_kind('is_loop','is_function') *)
 Fixpoint up_loop_or_func (ch:list fscope) : option fscope :=
@@ -98,6 +99,16 @@ Fixpoint up_loop_or_func (ch:list fscope) : option fscope :=
 
 Definition loop_found (ch:list fscope) : bool :=
   match up_loop_or_func ch with Some s => fl s | None => false end.
+
+(* check_jump_out_of_defer(context, node, what, 'is_loop'): walking up, a defer block is met before the loop
+   (or function) scope *)
+Fixpoint jump_out_of_defer (ch:list fscope) : bool :=
+  match ch with
+  | [] => false
+  | s :: r => if fl s || ff s then false else if fdb s then true else jump_out_of_defer r
+  end.
+
+Definition break_ok (ch:list fscope) : bool := negb (jump_out_of_defer ch) && loop_found ch.
 
 (* the case number the analyzer records in casescope.switchcase_index for the c-th case block
    (1-based); analyzer.lua writes the constant scraped into Gen.v *)
@@ -114,8 +125,8 @@ Definition fall_errs (ch:list fscope) (id:nat) (seen:bool) (last:bool) : errs :=
 
 Fixpoint aflow_stmt (ch:list fscope) (id:nat) (s:stmt) {struct s} : errs :=
   match s with
-  | Break => if loop_found ch then [] else [(id, KBreak)]
-  | Continue => if loop_found ch then [] else [(id, KContinue)]
+  | Break => if break_ok ch then [] else [(id, KBreak)]
+  | Continue => if break_ok ch then [] else [(id, KContinue)]
   | Fallthrough => [(id, KFall)]       (* never reached: blocks handle fallthrough themselves *)
   | Func _ _ b => aflow_block (plain_scope :: func_scope :: ch) false b
   | Do b => aflow_block (plain_scope :: ch) false b
@@ -124,7 +135,7 @@ Fixpoint aflow_stmt (ch:list fscope) (id:nat) (s:stmt) {struct s} : errs :=
   | Switch cs els d =>
     aflow_cases (plain_scope :: ch) (ncases cs) els 1%nat cs ++
     aflow_block (plain_scope :: plain_scope :: ch) false d      (* d = BNil when there is no else *)
-  | Defer b => aflow_block (plain_scope :: ch) false b
+  | Defer b => aflow_block (defer_scope :: ch) false b
   | _ => []
   end
 with aflow_block (ch:list fscope) (seen:bool) (b:block) {struct b} : errs :=
@@ -140,7 +151,7 @@ with aflow_cases (ch:list fscope) (n:nat) (els:bool) (c:nat) (cs:cases) {struct 
   match cs with
   | CNil => []
   | CCons b rest =>
-    aflow_block (mkf false false (Some (recorded_case c, n, els)) :: ch) false b ++
+    aflow_block (mkf false false false (Some (recorded_case c, n, els)) :: ch) false b ++
     aflow_cases ch n els (S c) rest
   end.
 
